@@ -117,6 +117,21 @@ claim(
     "DESIGN.md §3 C19",
 )
 
+claim(
+    "C11",
+    "Hypothesis property-based testing of the estimator's CasADi step functions: initialisation round trip from harness-generated consistent measurements, prediction vs exact gyro integration (error bound + observed order), rejection => outputs identical, acceptance => finite and P+ <= P (numpy eigenvalues), gates populated by construction",
+    "Exploration over the 30+-dimensional input space of initialize / predict / correct_mag / correct_accel with measurement classes (consistent, noisy, gross, zero, wrong direction) and states steered into both magnetometer gates; class coverage (accepted / rejected by each code) is enforced.",
+    "Trusts the harness sensor model (same convention as the estimator's own measurement functions) and numpy. Order bounds calibrated on the unchanged tree with stated margins.",
+    "DESIGN.md §3 C11",
+)
+claim(
+    "C12",
+    "Generated closed-loop histories (Hypothesis-drawn run parameters, each executed through launch.launch_sim with noise off) checked by invariants over every logged row: sensor magnitudes/rotation, no NaN, attitude error bound after the transient, per-component gyro-bias convergence, accepted corrections; plus a direct property test of the simulator's measurement functions",
+    "Exploration: 8 (quick) / 320 (thorough) whole runs of 20-30 simulated seconds over generated initial attitudes, biases, field geometry, rates and initialise on/off; a bounded-horizon statement of convergence with calibrated thresholds; the sensor-model cell evaluates thousands of generated states directly.",
+    "Convergence is checked as a bounded-horizon property (10 s transient, 0.05 rad, bias within max(0.35 initial, 0.02)); thresholds calibrated on the repaired tree with >= 2.3x margin. Failing runs are not shrunk.",
+    "DESIGN.md §3 C12",
+)
+
 NOT_YET = "check not built yet in this round (work in progress; see DESIGN.md)"
 
 
